@@ -181,7 +181,7 @@ func (c20) Generate(rng *rand.Rand, tier string, st *Stats) []Case {
 	plain := []string{"example.org", "localhost", "a", "xn--bcher-kva.example", "host-1.example.com.", "1.2.3.4", "255.255.255.255",
 		"0", "123", "a_b", "UPPER.Example", "", "ws", "wss", "w s", "日本.example",
 		// names that begin like a scheme or with every letter once (prefix / cutset confusions)
-		"tcp.example.com", "chat.example.com", "proxy.example.net", "ttt", "xmpp.example", "http.example", "wsx.example", "s.example", "5222", "host5222"}
+		"3com.example", "163.example", "xmpp.1und1.example", "10-0-0-12.xmpp.pod.cluster.local", "0-9.example.", "tcp.example.com", "chat.example.com", "proxy.example.net", "ttt", "xmpp.example", "http.example", "wsx.example", "s.example", "5222", "host5222"}
 	v6 := []string{"fe80::a00:27ff:fe4e:66a1%eth0", "2001:db8::8:800:200c:417a%3", "::", "::1", "1::", "fe80::1", "2001:db8::8a2e:370:7334", "2001:0db8:0000:0000:0000:ff00:0042:8329",
 		"::ffff:1.2.3.4", "fe80::1%eth0", "fe80::1%25eth0", "1:2:3:4:5:6:7:8", "a::b:c", "::1.2.3.4",
 		// literals whose last group reads like a port (the default ones, 80, 0)
